@@ -1,6 +1,7 @@
 // `alloc` engine (C19): every operation of a catalogue is run inside the simulator with the n-th KSI_malloc / KSI_calloc
 // failing.  Complete single-fault sweep + seeded multi-fault sets.
 #include "eng/bworld.h"
+#include "ref/pub.h"
 #include "run/plan.h"
 #include "run/runner.h"
 #include "sim/kernel.h"
@@ -587,6 +588,185 @@ done:
 	return out;
 }
 
+// ---- operations around the trust anchors: publications file, PKI, user publication, authentication record
+
+// a publications file of this world (publication at the calendar head), signed by the fixture signer; the context gets a trust store
+// with the fixture CA only and the certificate constraint of the fixture signer. Part of the operation (so its allocations are swept).
+static int trust_setup(Env &e, uint64_t *pub_out) {
+	uint64_t P = e.bw.world.head();
+	static std::map<uint64_t, std::string> cache;
+	std::string &pf = cache[P];
+	if (pf.empty()) {
+		std::vector<const Pki *> certs = {&pki("auth_valid"), &pki("auth_expired")};
+		std::vector<PubEntry> pubs = {{P, e.bw.world.cal.root(P)}};
+		pf = build_pubfile(certs, pubs, pki("pubsigner"), 1599999000);
+	}
+	e.bw.pubfile_bytes = pf;
+	e.bw.pub_http_code = 200;
+	if (pub_out) *pub_out = P;
+	KSI_PKITruststore *ts = nullptr;
+	int res = KSI_PKITruststore_new(e.ctx, 0, &ts);
+	if (res != KSI_OK) return res;
+	res = KSI_PKITruststore_addLookupFile(ts, (fixtures_dir() + "/ca.pem").c_str());
+	if (res == KSI_OK) res = KSI_CTX_setPKITruststore(e.ctx, ts);
+	if (res != KSI_OK) { KSI_PKITruststore_free(ts); return res; }
+	static const KSI_CertConstraint cons[] = {{KSI_CERT_EMAIL, (char *)"publications@sim.test"}, {NULL, NULL}};
+	return KSI_CTX_setDefaultPubFileCertConstraints(e.ctx, cons);
+}
+
+static std::string op_receive_pubfile(Env &e) {
+	std::string out; int res; KSI_PublicationsFile *pf = nullptr; KSI_PublicationRecord *pr = nullptr;
+	CallEnv ce; ce.subseed = 5;
+	CK(trust_setup(e, nullptr), "trust_setup");
+	e.bw.arm(ce);
+	res = KSI_receivePublicationsFile(e.ctx, &pf);
+	e.bw.disarm();
+	if (res != KSI_OK) { out = E(res, "receive"); goto done; }
+	CK(KSI_verifyPublicationsFile(e.ctx, pf), "verify");
+	CK(KSI_PublicationsFile_getLatestPublication(pf, NULL, &pr), "latest");
+	out = pr ? "OK:verified" : "INVALID";
+done:
+	KSI_PublicationsFile_free(pf);
+	return out;
+}
+
+static std::string op_extend_to_pubfile(Env &e) {
+	std::string out; int res; KSI_Signature *ext = nullptr; uint64_t P = 0;
+	KSI_DataHash *ph = nullptr; KSI_Utf8String *ps = nullptr; time_t pd = 0; KSI_LIST(KSI_Utf8String) *refs = nullptr, *urls = nullptr;
+	CallEnv ce; ce.subseed = 6; ce.chunk = 300;
+	CK(trust_setup(e, &P), "trust_setup");
+	e.bw.arm(ce);
+	res = KSI_extendSignature(e.ctx, e.sig, &ext);
+	e.bw.disarm();
+	if (res != KSI_OK) { out = E(res, "extendSignature"); goto done; }
+	CK(KSI_Signature_getPublicationInfo(ext, &ph, &ps, &pd, &refs, &urls), "pubinfo");
+	{
+		std::string bytes = sdk::serialize(ext);
+		SigView v; SigFacts f;
+		if (!bytes.empty() && parse_signature(bytes, v)) f = evaluate(v);
+		out = bytes.empty() ? E(KSI_OUT_OF_MEMORY, "serialize") : f.consistent && f.input_hash == e.hash && v.has_cal && v.cal.pub == P && v.has_pub && (uint64_t)pd == P && sdk::imprint_of(ph) == e.bw.world.cal.root(P) ? "OK:valid" : "INVALID";
+	}
+done:
+	KSI_DataHash_free(ph); KSI_Utf8String_free(ps); KSI_Utf8StringList_free(refs); KSI_Utf8StringList_free(urls);
+	KSI_Signature_free(ext);
+	return out;
+}
+
+static std::string verify_with(Env &e, KSI_Signature *sig, const KSI_Policy *pol, bool extending, bool user_pub, uint64_t P) {
+	std::string out; int res;
+	KSI_VerificationContext vc; KSI_PolicyVerificationResult *pr = nullptr; KSI_PublicationData *pd = nullptr; KSI_Integer *t = nullptr; KSI_DataHash *rh = nullptr, *doc = nullptr;
+	bool inited = false;
+	CallEnv ce; ce.subseed = 9;
+	CK(KSI_VerificationContext_init(&vc, e.ctx), "vc_init"); inited = true;
+	vc.signature = sig;
+	vc.extendingAllowed = extending;
+	doc = sdk::hash_from_imprint(e.ctx, e.hash);
+	if (!doc) { out = E(KSI_OUT_OF_MEMORY, "hash"); goto done; }
+	vc.documentHash = doc;
+	if (user_pub) {
+		CK(KSI_PublicationData_new(e.ctx, &pd), "pubdata");
+		CK(KSI_Integer_new(e.ctx, P, &t), "int");
+		CK(KSI_PublicationData_setTime(pd, t), "settime"); t = nullptr;
+		rh = sdk::hash_from_imprint(e.ctx, e.bw.world.cal.root(P));
+		if (!rh) { out = E(KSI_OUT_OF_MEMORY, "hash"); goto done; }
+		CK(KSI_PublicationData_setImprint(pd, rh), "setimprint"); rh = nullptr;
+		vc.userPublication = pd;
+	}
+	e.bw.arm(ce);
+	res = KSI_SignatureVerifier_verify(pol, &vc, &pr);
+	e.bw.disarm();
+	if (res != KSI_OK) { out = E(res, "verify"); goto done; }
+	// the verifier reports an internal error of a rule (here: out of memory) as an inconclusive result with the code GEN-2 and
+	// returns KSI_OK: that is its documented way of returning the error (never OK, never FAIL)
+	if (pr->finalResult.resultCode == KSI_VER_RES_NA && pr->finalResult.errorCode == KSI_VER_ERR_GEN_2) out = "E:NA/GEN-2@verify";
+	else { char b[64]; snprintf(b, sizeof b, "OK:rc=%d:ec=0x%x", (int)pr->finalResult.resultCode, (int)pr->finalResult.errorCode); out = b; }
+done:
+	KSI_PolicyVerificationResult_free(pr);
+	if (inited) { vc.signature = NULL; vc.documentHash = NULL; vc.userPublication = NULL; KSI_VerificationContext_clean(&vc); }
+	KSI_PublicationData_free(pd); KSI_Integer_free(t); KSI_DataHash_free(rh); KSI_DataHash_free(doc);
+	return out;
+}
+
+static std::string op_verify_general(Env &e) {
+	uint64_t P = 0; int res = trust_setup(e, &P);
+	if (res != KSI_OK) return E(res, "trust_setup");
+	return verify_with(e, e.sig, KSI_VERIFICATION_POLICY_GENERAL, true, false, P);
+}
+static std::string op_verify_user_pub(Env &e) {
+	uint64_t P = e.bw.world.head();
+	return verify_with(e, e.sig, KSI_VERIFICATION_POLICY_USER_PUBLICATION_BASED, true, true, P);
+}
+static std::string op_verify_pubfile(Env &e) {
+	uint64_t P = 0; int res = trust_setup(e, &P);
+	if (res != KSI_OK) return E(res, "trust_setup");
+	return verify_with(e, e.sig, KSI_VERIFICATION_POLICY_PUBLICATIONS_FILE_BASED, true, false, P);
+}
+// key-based: the signature gets a calendar authentication record signed with the fixture key whose certificate the file lists
+static std::string op_verify_key_based(Env &e) {
+	std::string out; int res; KSI_Signature *s = nullptr; uint64_t P = 0;
+	Tlv top; size_t u; SigView v;
+	if (!Tlv::parse1(e.sig_bytes, 0, top, u) || !top.expand() || !parse_signature(e.sig_bytes, v) || !v.has_cal) return "HARNESS";
+	{
+		Tlv pd = Tlv::nest(0x10, {Tlv::u64(0x02, v.cal.pub), Tlv::raw(0x04, v.cal.fold())});
+		static std::map<std::string, std::string> cache;
+		std::string &sg = cache[pd.enc()];
+		if (sg.empty()) rsa_sha256_sign(pki("auth_valid"), pd.enc(), sg);
+		top.add(Tlv::nest(0x0805, {pd, Tlv::nest(0x0b, {Tlv::str(0x01, "1.2.840.113549.1.1.11"), Tlv::raw(0x02, sg), Tlv::raw(0x03, pki("auth_valid").cert_id)})}));
+	}
+	std::string bytes = top.enc();
+	CK(trust_setup(e, &P), "trust_setup");
+	CK(KSI_Signature_parse(e.ctx, (unsigned char *)bytes.data(), bytes.size(), &s), "parse");
+	out = verify_with(e, s, KSI_VERIFICATION_POLICY_KEY_BASED, false, false, P);
+done:
+	KSI_Signature_free(s);
+	return out;
+}
+
+static std::string op_receive_configs(Env &e) {
+	std::string out; int res; KSI_Config *ca = nullptr, *cx = nullptr;
+	CallEnv ce; ce.subseed = 21;
+	e.bw.arm(ce);
+	res = KSI_receiveAggregatorConfig(e.ctx, &ca);
+	e.bw.disarm();
+	if (res != KSI_OK) { out = E(res, "aggr_config"); goto done; }
+	ce.subseed = 22;
+	e.bw.arm(ce);
+	res = KSI_receiveExtenderConfig(e.ctx, &cx);
+	e.bw.disarm();
+	if (res != KSI_OK) { out = E(res, "ext_config"); goto done; }
+	{
+		KSI_Integer *ml = nullptr, *cf = nullptr;
+		if (!ca || !cx || KSI_Config_getMaxLevel(ca, &ml) != KSI_OK || KSI_Config_getCalendarFirstTime(cx, &cf) != KSI_OK || !ml || !cf) out = "INVALID";
+		else out = "OK:" + std::to_string(KSI_Integer_getUInt64(ml)) + ":" + std::to_string(KSI_Integer_getUInt64(cf));
+	}
+done:
+	KSI_Config_free(ca); KSI_Config_free(cx);
+	return out;
+}
+
+// publication strings: publication data -> base32 -> publication data
+static std::string op_pub_base32(Env &e) {
+	std::string out; int res; KSI_PublicationData *pd = nullptr, *back = nullptr; KSI_Integer *t = nullptr; KSI_DataHash *rh = nullptr; char *str = nullptr;
+	uint64_t P = e.bw.world.head();
+	CK(KSI_PublicationData_new(e.ctx, &pd), "pubdata");
+	CK(KSI_Integer_new(e.ctx, P, &t), "int");
+	CK(KSI_PublicationData_setTime(pd, t), "settime"); t = nullptr;
+	rh = sdk::hash_from_imprint(e.ctx, e.bw.world.cal.root(P));
+	if (!rh) { out = E(KSI_OUT_OF_MEMORY, "hash"); goto done; }
+	CK(KSI_PublicationData_setImprint(pd, rh), "setimprint"); rh = nullptr;
+	CK(KSI_PublicationData_toBase32(pd, &str), "toBase32");
+	CK(KSI_PublicationData_fromBase32(e.ctx, str, &back), "fromBase32");
+	{
+		KSI_Integer *bt = nullptr; KSI_DataHash *bh = nullptr;
+		if (KSI_PublicationData_getTime(back, &bt) != KSI_OK || KSI_PublicationData_getImprint(back, &bh) != KSI_OK || !bt || !bh) out = "INVALID";
+		else out = KSI_Integer_getUInt64(bt) == P && sdk::imprint_of(bh) == e.bw.world.cal.root(P) ? std::string("OK:") + str : "INVALID";
+	}
+done:
+	KSI_free(str);
+	KSI_PublicationData_free(pd); KSI_PublicationData_free(back); KSI_Integer_free(t); KSI_DataHash_free(rh);
+	return out;
+}
+
 struct Case { const char *name; std::function<std::string(Env &)> op; };
 
 static std::vector<Case> &catalogue() {
@@ -616,6 +796,14 @@ static std::vector<Case> &catalogue() {
 		{"prepend_two_local_chains_with_levels", op_prepend_twice},
 		{"extend_blocking_to_publication_record", extend_to_publication_once},
 		{"verify_internal_calendar_algorithm_change", op_calendar_algorithm_change},
+		{"receive_and_verify_publications_file", op_receive_pubfile},
+		{"extend_signature_to_publications_file", op_extend_to_pubfile},
+		{"verify_general_policy_extending", op_verify_general},
+		{"verify_user_publication_based_extending", op_verify_user_pub},
+		{"verify_publications_file_based_extending", op_verify_pubfile},
+		{"verify_key_based_authentication_record", op_verify_key_based},
+		{"receive_aggregator_and_extender_config", op_receive_configs},
+		{"publication_data_base32_roundtrip", op_pub_base32},
 	};
 	return c;
 }
